@@ -460,6 +460,12 @@ class Gen:
             for b in bl:
                 for vn, val in list(b.items()):
                     s_ = se.SUBFIELD_SERIALIZERS.get((m.name, b.name, vn))
+                    if s_ and isinstance(val, int) and not isinstance(val, bool) and self.rng.random() < 0.5:
+                        # bias integer fields towards values that have a name (shown packed, e.g. PCode = AVATAR)
+                        named = self.named_values(m, b, vn, s_)
+                        if named:
+                            b[vn] = self.rng.choice(named)
+                        continue
                     if not s_ or not isinstance(val, bytes):
                         continue
                     fallback = None
@@ -484,6 +490,23 @@ class Gen:
                     if fallback is not None and self.rng.random() < 0.93:
                         b[vn] = fallback
         return m
+
+    def named_values(self, m, b, vn, s_):
+        cache = self.__dict__.setdefault("_named", {})
+        key = (m.name, b.name, vn)
+        if key not in cache:
+            tv = _tmpl_var(self.im, m, b, vn)
+            out = []
+            for c in list(range(0, 70)) + [1 << i for i in range(7, 32)] + [255, 0x12, 0x47]:
+                try:
+                    self.im.packer.pack(c, tv.type)
+                    r = s_.deserialize(b, c, pod=True)
+                except Exception:
+                    continue
+                if isinstance(r, str) or (isinstance(r, (tuple, list)) and r):
+                    out.append(c)
+            cache[key] = out
+        return cache[key]
 
     def datagram(self, tmpl, flags=0, counts=None):
         im = self.im
